@@ -274,6 +274,52 @@ def query(ctx, p):
             ctx.require(eq_seq(list(sd), [n for n in nodes if len(node[n]) >= 1]), "stat of a filtered view does not follow that view")
 
 
+@harness("C06.dquery")
+def dquery(ctx, p):
+    """Directed views and stat arguments against definitions on the tables."""
+    D = nets.build_D(ctx, _shapeD(p["shape"]), attrs=True)[0]
+    node, edge = D._node, D._edge
+    nodes, edges = list(node), list(edge)
+    for j, e in enumerate(edges):
+        D._edge_attr[e]["w"] = ctx.int(f"w{j}", 0, 5)
+    w = {e: D._edge_attr[e]["w"] for e in edges}
+    k = ctx.int("order", -1, 3)
+    d = ctx.int("degree", 0, 3)
+    ctx.info["op"] = "directed views and stats"
+    ctx.info["args"] = {"order": k, "degree": d}
+    tail = {e: set(edge[e]["in"]) for e in edges}
+    head = {e: set(edge[e]["out"]) for e in edges}
+    both = {e: tail[e] | head[e] for e in edges}
+    with warnings.catch_warnings():
+        warnings.simplefilter("ignore")
+        ctx.require(nets.same(D.edges.tail(dtype=dict), tail) and nets.same(D.edges.sources(dtype=dict), tail), "tail/sources differ from the stored tails")
+        ctx.require(nets.same(D.edges.head(dtype=dict), head) and nets.same(D.edges.targets(dtype=dict), head), "head/targets differ from the stored heads")
+        ctx.require(nets.same(D.edges.members(dtype=dict), both), "members differ from tail U head")
+        ctx.require(nets.same(D.edges.dimembers(dtype=dict), {e: (tail[e], head[e]) for e in edges}), "dimembers differ from (tail, head)")
+        ctx.require(nets.same([set(x) for x in D.edges.members()], [both[e] for e in edges]), "members() list does not follow edge order")
+        inm = {n: set(node[n]["in"]) for n in nodes}
+        outm = {n: set(node[n]["out"]) for n in nodes}
+        ctx.require(nets.same(D.nodes.dimemberships(), {n: (inm[n], outm[n]) for n in nodes}), "dimemberships differ from (in, out)")
+        ctx.require(nets.same(D.nodes.memberships(), {n: inm[n] | outm[n] for n in nodes}), "memberships differ from in U out")
+        for e in edges:
+            ctx.require(nets.same(D.edges.tail(e), tail[e]) and nets.same(D.edges.head(e), head[e]) and nets.same(D.edges.members(e), both[e]), "per-edge tail/head/members differ")
+        def osz(e):
+            return len(both[e]) == k + 1
+        ctx.require(nets.same(D.nodes.degree(order=k).asdict(), {n: len([e for e in inm[n] | outm[n] if osz(e)]) for n in nodes}), "degree(order) differs from its definition")
+        ctx.require(nets.same(D.nodes.in_degree(order=k).asdict(), {n: len([e for e in inm[n] if osz(e)]) for n in nodes}), "in_degree(order) differs from its definition")
+        ctx.require(nets.same(D.nodes.out_degree(order=k).asdict(), {n: len([e for e in outm[n] if osz(e)]) for n in nodes}), "out_degree(order) differs from its definition")
+        ctx.require(nets.same(D.nodes.degree(weight="w").asdict(), {n: sum(w[e] for e in inm[n] | outm[n]) for n in nodes}), "weighted degree differs from its definition")
+        ctx.require(nets.same(D.nodes.in_degree(weight="w").asdict(), {n: sum(w[e] for e in inm[n]) for n in nodes}), "weighted in_degree differs from its definition")
+        ctx.require(nets.same(D.nodes.out_degree(order=k, weight="w").asdict(), {n: sum(w[e] for e in outm[n] if osz(e)) for n in nodes}), "weighted out_degree(order) differs from its definition")
+        deg = {n: len(inm[n] | outm[n]) for n in nodes}
+        ctx.require(nets.same(D.edges.size(degree=d).asdict(), {e: len([n for n in both[e] if deg[n] == d]) for e in edges}), "size(degree) differs from its definition")
+        ctx.require(nets.same(D.edges.tail_size(degree=d).asdict(), {e: len([n for n in tail[e] if deg[n] == d]) for e in edges}), "tail_size(degree) differs from its definition")
+        ctx.require(nets.same(D.edges.head_size(degree=d).asdict(), {e: len([n for n in head[e] if deg[n] == d]) for e in edges}), "head_size(degree) differs from its definition")
+        ctx.require(nets.same(D.edges.order(degree=d).asdict(), {e: len([n for n in both[e] if deg[n] == d]) - 1 for e in edges}), "order(degree) differs from its definition")
+        ctx.require(nets.same(list(D.nodes.isolates()), [n for n in nodes if deg[n] == 0]), "directed isolates differ from the definition")
+        ctx.require(nets.same(list(D.edges.empty()), [e for e in edges if len(both[e]) == 0]), "directed empty edges differ from the definition")
+
+
 @harness("C06.order")
 def order(ctx, p):
     """Output formats follow view order under REAL hashing: labels are bounded
@@ -330,6 +376,8 @@ def spec(tier, seed):
     for s in shQ:
         for what in ("degree_args", "filterby", "filterby_attr", "neighbors", "sets", "formats"):
             units.append(("C06.query", {"cls": "H", "shape": s, "what": what}))
+    for s in (shD if tier == "quick" else shapes.shapes_D_upto(2, 2)):
+        units.append(("C06.dquery", {"cls": "D", "shape": s}))
     for kind in ("node", "edge"):
         for n in (2, 3):
             units.append(("C06.order", {"cls": "H", "shape": None, "kind": kind, "n": n}))
